@@ -80,10 +80,12 @@ def _cdf_ordering(prog, uc, cf):
         idx = st.targets[0].slice
         val = rz.term(st.value, st)
         if isinstance(idx, ast.Constant) and idx.value == 0:
-            ok0 = (pmatch(val, f"quad(self.__call__, self.lwr_limit, {v}[0])[0] if {v}[0] > self.lwr_limit else 0.0") is not None
-                   or pmatch(val, f"quad(self.__call__, self.lwr_limit, {v}[0])[0]") is not None)
-            seen0 = ok0
-            if not ok0:
+            full = (pmatch(val, f"quad(self.__call__, self.lwr_limit, {v}[0])[0] if {v}[0] > self.lwr_limit else 0.0") is not None
+                    or pmatch(val, f"0.0 if {v}[0] <= self.lwr_limit else quad(self.__call__, self.lwr_limit, {v}[0])[0]") is not None
+                    or pmatch(val, f"quad(self.__call__, self.lwr_limit, {v}[0])[0]") is not None)
+            zero = isinstance(val, ast.Constant) and val.value == 0      # the arm for a first point below the lower limit
+            seen0 = seen0 or full
+            if not (full or zero):
                 why.append(f"first interval is `{U(val)}`")
         elif isinstance(idx, ast.Name):
             loop = rz.parent.get(id(st), (None, None, None))[1]
@@ -218,22 +220,34 @@ def run(prog, tier):
     ex = Expander(prog, uc.module, uc)
     ex.opaque_self_attrs = {"n_nodes", "sd"}
     env = {}
+    rq = Resolver(init, prog, uc.module, uc)
     sts = {U(s.targets[0]): s for s in init.body if isinstance(s, ast.Assign)}
-    for name in ("k", "t", "self.u", "self.w"):
+    for name in ("self.u", "self.w"):
         if name not in sts:
             raise AnalysisError(f"anchor vanished: `{name}` in UnimodalPdf.__init__")
-    env["k"] = R.sym("k")
     n = R.sym("self.n_nodes")
-    tval = guard(lambda: ex.eval(sts["t"].value, env))
-    want_t = anf.cos_(anf.PI * (2 * R.sym("k") - 1) / (2 * n))
-    obs.append(formula_ob("quadrature-weights", qual(uc, init) + "[nodes]", tval, want_t, UNI, sts["t"].lineno,
-                          what="Chebyshev nodes t_k = cos(pi (2k - 1) / 2n)"))
-    kdef = U(sts["k"].value)
-    ok_k = kdef == "linspace(1, self.n_nodes, self.n_nodes)"
     T = R.sym("T")
-    env2 = {"t": T}
-    uval = guard(lambda: ex.eval(sts["self.u"].value, env2))
-    wval = guard(lambda: ex.eval(sts["self.w"].value, env2))
+    # the node array is the cosine both tables are built from; the node index is the linspace inside it
+    ut = rq.term(sts["self.u"].value, sts["self.u"])
+    wt = rq.term(sts["self.w"].value, sts["self.w"])
+    u_ab, seen_u = abstract(ut, [("cos(_)", "T")])
+    w_ab, seen_w = abstract(wt, [("cos(_)", "T")])
+    nodes = seen_u.get("T", set()) | seen_w.get("T", set())
+    if len(nodes) != 1:
+        raise AnalysisError(f"anchor vanished: one Chebyshev node expression cos(...) in self.u / self.w ({len(nodes)} found)")
+    node_t = ast.parse(next(iter(nodes)), mode="eval").body
+    k_ab, seen_k = abstract(node_t, [("linspace(_a, _b, _c)", "k"), ("arange(_a, _b)", "k")])
+    kdefs = seen_k.get("k", set())
+    kdef = next(iter(kdefs)) if len(kdefs) == 1 else None
+    ok_k = kdef is not None and pmatch(ast.parse(kdef, mode="eval").body, "linspace(1, self.n_nodes, self.n_nodes)") is not None
+    ex.scalar_names = set()
+    tval = guard(lambda: ex.eval(k_ab, {"k": R.sym("k")}))
+    want_t = anf.cos_(anf.PI * (2 * R.sym("k") - 1) / (2 * n))
+    obs.append(formula_ob("quadrature-weights", qual(uc, init) + "[nodes]", tval, want_t, UNI, sts["self.u"].lineno,
+                          what="Chebyshev nodes t_k = cos(pi (2k - 1) / 2n)"))
+    env2 = {"T": T}
+    uval = guard(lambda: ex.eval(u_ab, env2))
+    wval = guard(lambda: ex.eval(w_ab, env2))
     obs.append(formula_ob("quadrature-weights", qual(uc, init) + "[map]", uval, T / (1 - T * T), UNI, sts["self.u"].lineno,
                           what="substitution u = t / (1 - t^2) mapping (-1, 1) onto the real line"))
     # integral f(u) du = integral f(u(t)) u'(t) dt = sum (pi/n) sqrt(1-t^2) f(u(t_k)) u'(t_k); the code folds in 1/sd
@@ -242,7 +256,7 @@ def run(prog, tier):
     o = formula_ob("quadrature-weights", qual(uc, init) + "[weights]", wval, want_w, UNI, sts["self.w"].lineno,
                    what="weights = (pi/n) sqrt(1 - t^2) (du/dt) / sd  (Chebyshev weight x Jacobian of the substitution)")
     if o.ok and not ok_k:
-        o = struct_ob("quadrature-weights", qual(uc, init) + "[weights]", False, f"node index is `{kdef}`, not 1..n", UNI, sts["k"].lineno)
+        o = struct_ob("quadrature-weights", qual(uc, init) + "[weights]", False, f"node index is `{kdef}`, not 1..n", UNI, sts["self.u"].lineno)
     obs.append(o)
     # norm = sum(w * pdf_model(u, [0, sd, *theta[2:]])) * theta[1]
     nm = uc.methods.get("norm")
